@@ -872,7 +872,7 @@ PROPS = {
             "assumptions": ["ASCII arguments; values without trailing newline in slice elements (C08 known finding)"]},
     "C08": {"run": run_c08,
             "rule": "quick: every (data path, origin, character class) triple with at least one content (2200 programs); thorough: the whole sweep "
-                    "(97 characters x 4 positions + 55 special strings) x 12 paths x 4 origins = 21228 programs, each executed under /bin/bash with a canary "
+                    "(97 characters x 4 positions + 65 special strings) x 13 paths x 4 origins, each executed under /bin/bash with a canary "
                     "file that only executed data could create; plus random double-quoted words against the Bash word model",
             "trusted": ["Sem/Words.v dq is a model of Bash's double-quote expansion (validated on every run by the dqwords stream)",
                         "the expected output of a sweep program is computed by the generator (harness/opaquestream.go)"],
